@@ -93,8 +93,14 @@ impl TryFrom<tir::InputQuery> for CanonicalQuery {
             .min_amount
             .as_option()
             .map(|x| data_or_bail!(x, assets))
-            .transpose()?
-            .map(|x| CanonicalAssets::from(Vec::from(x)));
+            .transpose()?;
+
+        // the conversion into canonical assets requires numeric amounts
+        for asset in min_amount.iter().flat_map(|x| x.iter()) {
+            data_or_bail!(asset.amount, number);
+        }
+
+        let min_amount = min_amount.map(|x| CanonicalAssets::from(Vec::from(x)));
 
         let refs = query
             .r#ref
